@@ -119,6 +119,7 @@ func genThresholds(c *hmain.Ctx, r *hx.Rng, add func(stream string, which int, c
 	//      already closed"): file.d exits. Timing decides (about one run in six under load). Judged with which = 2: the job
 	//      that replaces a deleted one reads the file again from 0, so a line may be delivered twice in one run.
 	rotateListed := knownListed("C03-live-rotate-stale-job")
+	dropListed := knownListed("C03-live-rotate-job-dropped")
 	for i := 0; rotateListed && i < 3*c.Scale; i++ {
 		b := &caseB{}
 		o := baseCfg()
@@ -138,6 +139,19 @@ func genThresholds(c *hmain.Ctx, r *hx.Rng, add func(stream string, which int, c
 		mode, arg := 0, 0
 		if r.Bool() {
 			mode, arg = 2, r.Range(3, 9)
+		}
+		// PROPOSED FINDING C03-live-rotate-job-dropped (notes/finding-C03-live-rotate-job-dropped.md): deleteJobAndUnlock marks
+		// the job deleted and releases job.mu BEFORE it takes the job out of jp.jobs; a notification for the renamed file that
+		// gets job.mu in between sees isDeleted, opens the file and calls addJob, which still finds the old entry ("job ... was
+		// already created") and gives up - then the entry is deleted: the rotated file has NO job until the next start. With
+		// should_watch_file_changes off nothing re-adds it, what the writer appends to the rotated file is delivered only after a
+		// restart (about 2% of the runs of such a case). No line is lost over the runs (the predicate holds), but a run that
+		// ends at quiescence has not delivered everything: the model reports Differ. Until known_findings.json lists the id
+		// (= the coordinator has decided: repaired in /repo and recorded) the same history is killed AT quiescence by kill mode 2
+		// (arg larger than any delivery count), i.e. judged as a killed run: every delivery must be predicted, the offsets file
+		// sound, the process alive, nothing lost over all runs - only 'this run delivered everything' is not demanded.
+		if mode == 0 && o.watch == 0 && !dropListed {
+			mode, arg = 2, 1000
 		}
 		c.W.Count(fmt.Sprintf("live-rotate: should_watch_file_changes=%d first phase kill mode=%d", o.watch, mode))
 		add("live-rotate", 2, mkCase(o.sx(),
